@@ -223,7 +223,14 @@ def _collect_data(
         )
     dc = model.datacollector
 
-    model_data = {param: values[step] for param, values in dc.model_vars.items()}
+    # model_vars is indexed by collect() call, _agent_records by model.steps:
+    # take the (last) collection that was made at this step for both
+    positions = [i for i, s in enumerate(dc._collection_steps) if s == step]
+    model_data = (
+        {param: values[positions[-1]] for param, values in dc.model_vars.items()}
+        if positions
+        else {}
+    )
 
     all_agents_data = []
     raw_agent_data = dc._agent_records.get(step, [])
